@@ -24,7 +24,7 @@ def judge_pass(ctx, src, cases, worker, kind, chunk=600, env=None, tag=""):
         nobs += len(rec.get("routes", []))
     ctx.evaluations += nobs
     ctx.log("Act T: TLC judges %d records (%d observations)" % (len(records), nobs))
-    res = tlc.validate_traces("DTWTrace", "DTWTrace.cfg", records, chunk=chunk)
+    res = tlc.validate_traces("DTWTrace", "DTWTrace.cfg", records, chunk=chunk, canary_fields=["obs", "d", "lb", "base"])
     ctx.add_tv(res)
     if res.get("notes"):
         ctx.extra["reference_deviates_from_spec"] = ctx.extra.get("reference_deviates_from_spec", 0) + len(res["notes"])
